@@ -6,14 +6,13 @@
 (*                                                                         *)
 (*  Env  : `ev.bytes` = the bytes of the packet (any packet: SOFs with any  *)
 (*         frame number, with good or bad CRC5, truncated, overlong, bad    *)
-(*         PID check; tokens, data, handshakes, garbage).  Assumption: a    *)
-(*         SOF repeating the current frame number is only sent while the    *)
-(*         microframe number is below 7 (USB 2.0 has 8 microframes per      *)
-(*         frame; the 3-bit output cannot count further).                   *)
+(*         PID check; tokens, data, handshakes, garbage).  No bound on how  *)
+(*         often a frame number repeats.                                    *)
 (*  Ref  : frame, micro.  A well-formed SOF (3 bytes, SOF PID with correct  *)
 (*         check nibble, CRC5 correct -- bit-serial CRC5 of CRC.tla) sets   *)
 (*         frame to its 11-bit number; micro := 0 if the number changed,    *)
-(*         micro + 1 if it repeats; the new-frame strobe fires (once) iff   *)
+(*         micro + 1 (the 3-bit output counts modulo 8) if it repeats; the  *)
+(*         new-frame strobe fires (once) iff                                *)
 (*         the number changed; sof_detected fires once.  Any other packet   *)
 (*         changes nothing and fires nothing.                               *)
 (*         Observed per event: ev.nf / ev.sd = number of cycles new_frame / *)
@@ -40,7 +39,7 @@ SofBytes(f, flip) == LET c == Usb2Crc5(f)
                          w == f + 2048 * cc
                      IN <<SofPidByte, w % 256, w \div 256>>
 
-Legal(e) == ~(WellFormedSof(e.bytes) /\ FrameOf(e.bytes) = frame /\ micro >= 7)
+Legal(e) == TRUE                         \* every packet sequence is legal
 
 Failing(e) ==
     IF ~Legal(e) THEN "env_illegal_input"
@@ -48,7 +47,7 @@ Failing(e) ==
         LET f == FrameOf(e.bytes)
             changed == f # frame
         IN IF e.frame # f THEN "frame_number"
-           ELSE IF e.micro # (IF changed THEN 0 ELSE micro + 1) THEN "microframe_number"
+           ELSE IF e.micro # (IF changed THEN 0 ELSE (micro + 1) % 8) THEN "microframe_number"
            ELSE IF e.nf # (IF changed THEN 1 ELSE 0) THEN "new_frame_strobe"
            ELSE IF e.sd # 1 THEN "sof_detected_strobe"
            ELSE "ok"
@@ -79,7 +78,7 @@ TrailRun(s) == IF Len(s) <= 1 THEN Len(s)
 \* the reported frame number is that of the last well-formed SOF
 FrameIsLastSof == frame = Full[Len(Full)]
 \* the microframe number counts the SOFs that repeated the current frame number since it last changed
-MicroCountsRepeats == micro = IF TrailRun(Full) = Len(Full) THEN m0 + Len(hist) ELSE TrailRun(Full) - 1
+MicroCountsRepeats == micro = (IF TrailRun(Full) = Len(Full) THEN m0 + Len(hist) ELSE TrailRun(Full) - 1) % 8
 \* the new-frame strobe of the last event: exactly when it was a well-formed SOF whose number differs from the one before
 StrobeIffChange == (ev.nf = 1) <=> (WellFormedSof(ev.bytes) /\ Len(Full) >= 2 /\ Full[Len(Full)] # Full[Len(Full) - 1])
 StrobeOnce == ev.nf \in {0, 1} /\ ev.sd \in {0, 1} /\ (ev.sd = 1 <=> WellFormedSof(ev.bytes))
